@@ -63,12 +63,13 @@ Theorem C04_broadcast_hash_failure_names_nobody : forall fixed vh ofp self n ssi
 Proof. exact broadcast_hash_failure_names_nobody. Qed.
 Print Assumptions C04_broadcast_hash_failure_names_nobody.
 
-(* all error kinds the control logic can produce, with the shape of their culprit lists *)
+(* all error kinds the control logic can produce, with the shape of their culprit lists
+   (EPanic: a panic of the round code recovered by Accept names nobody) *)
 Theorem C04_error_kinds_and_culprits : forall fixed vh ofp self n ssid proto sh s c k,
   reachable fixed vh ofp self n ssid proto sh s ->
   h_err s = Some (c, k) ->
   match k with
-  | EBroadcastHash => c = []
+  | EBroadcastHash | EPanic => c = []
   | EUser => c = [h_self s]
   | EAbortNotice | EVerify => exists j, c = [j] /\ j <> h_self s
   | _ => False
@@ -78,7 +79,7 @@ Print Assumptions C04_error_kinds_and_culprits.
 
 (* -- non-vacuity -- *)
 Example C04_ex_abort_notice :
-  let m := mkMsg 7 9 2 None 0 true false 0 1 true in
+  let m := mkMsg 7 9 2 None 0 true false 0 1 true NoPanic in
   reachable true ex_vh ex_ofp 0 3 7 9 ex_shape ex_start
   /\ h_rt ex_start = Running /\ terminal ex_start = false /\ can_accept ex_start m = true /\ m_round m = 0
   /\ h_err (accept ex_vh ex_ofp ex_start m) = Some ([2], EAbortNotice).
